@@ -216,7 +216,7 @@ class Engine:
         else:
             s = z3.Solver()
             s.set('timeout', 3000)
-            for a in p.pc:
+            for a in light_pc(p):
                 s.add(a)
             kinds = []
             while True:
@@ -262,7 +262,7 @@ class Engine:
         ct = z3.Select(harr(p, '$cls'), ref.t)
         s = z3.Solver()
         s.set('timeout', 3000)
-        for a in p.pc:
+        for a in light_pc(p):
             s.add(a)
         out = []
         n = 0
@@ -336,6 +336,9 @@ class Engine:
             else:
                 ft = feasible(q, t)
                 ff = feasible(q, z3.Not(t))
+                if ft and ff and len(light_pc(q)) != len(q.pc):
+                    ft = feasible_full(q, t)
+                    ff = feasible_full(q, z3.Not(t)) if ft else True
                 if ft and ff:
                     q2 = q.fork()
                     q.assume(t)
